@@ -14,6 +14,43 @@ func NewRectClipLines64(rect Rect64) *RectClipLines64 {
 	}
 }
 
+// Execute clips open paths: unlike the polygon version it keeps two-point
+// paths, never adds rectangle corners and never joins a path's ends.
+func (r *RectClipLines64) Execute(paths Paths64) Paths64 {
+	result := Paths64{}
+
+	if r.rect.IsEmpty() {
+		return result
+	}
+
+	for _, path := range paths {
+		if len(path) < 2 {
+			continue
+		}
+		r.pathBounds = getBounds(path)
+
+		if !r.rect.Intersects(r.pathBounds) {
+			continue
+		}
+
+		r.executeInternalPath64(path)
+
+		for _, op := range r.results {
+			tmp := getPathRectClipLine(op)
+			if len(tmp) > 0 {
+				result = append(result, tmp)
+			}
+		}
+
+		r.results = r.results[:0]
+		for i := 0; i < 8; i++ {
+			r.edges[i] = r.edges[i][:0]
+		}
+	}
+
+	return result
+}
+
 func (r *RectClip64) Execute(paths Paths64) Paths64 {
 	result := Paths64{}
 
